@@ -7,6 +7,7 @@
 #include "phq_helpers.hpp"
 #include "rel_iface.hpp"
 #include <cmath>
+#include <deque>
 
 #ifndef VF_CHUNK
 #error "compile with -DVF_CHUNK=0..5"
@@ -20,8 +21,8 @@ namespace {
 std::vector<VfRelation> g_rel;
 std::vector<VfCompound> g_cmp;
 std::vector<VfStdFn> g_std;
-std::vector<std::string*> g_names;  // keeps c_str() alive
-const char* keep(const std::string& s) { g_names.push_back(new std::string(s)); return g_names.back()->c_str(); }
+std::deque<std::string> g_names;  // keeps c_str() alive (deque: no relocation)
+const char* keep(const std::string& s) { g_names.push_back(s); return g_names.back().c_str(); }
 
 template <class X> VfArg arg_of() {
   VfArg a{};
